@@ -5,6 +5,7 @@ from .lru import lru_from, lru_list, maybe_text, url_lru, relative_of, lru_under
 from .rules import DEFAULT_RULE_NAMES, ANCHORED_RULE_NAMES
 from .ops import Config
 from .spec import stems_of
+from .codec import B
 
 # default weights of op kinds; property profiles override some of them
 BASE_WEIGHTS = {
@@ -98,12 +99,43 @@ def op_strategy(draw, v, led, weights, backend="file", history=()):
             continue
         ok.append(k)
     kind = draw(st.sampled_from(ok))
+    # right after a prefix was detached (delete / remove / move), half of the time a page from beneath it comes back
+    writes = [o for o in history[-4:] if o[0] != "probe"]
+    if writes and writes[-1][0] in ("delete", "rmprefix", "move") and "again" in ok and draw(st.booleans()):
+        last = writes[-1]
+        gone = [B(x) for x in (last[2] if last[0] == "delete" else [last[1]])]
+        under = sorted(p for p in led.pages if any(p.startswith(g) for g in gone))
+        if under:
+            p1 = draw(st.sampled_from(under))
+            how = draw(st.sampled_from(["page", "pages", "link-source", "link-target", "batch-source", "batch-target"]))
+            other = draw(st.sampled_from(sorted(led.pages)))
+            return {"page": ("page", p1, draw(st.booleans())), "pages": ("pages", [p1], draw(st.booleans())),
+                    "link-source": ("links", [(p1, other)]), "link-target": ("links", [(other, p1)]),
+                    "batch-source": ("batch", [(p1, [])], 1), "batch-target": ("batch", [(other, [p1])], 1)}[how]
     known = _known(led)
     T = lambda l: maybe_text(draw, l)  # noqa: E731
 
     if kind == "again":
-        # re-submission of an earlier page/link request, unchanged
         prev = [o for o in history if o[0] in ("page", "pages", "links", "batch")]
+        pgs_ = sorted(led.pages)
+        if pgs_ and draw(st.booleans()):
+            # a KNOWN page comes back through a drawn entry point (after webentity deletions / prefix removals this is what
+            # makes the creation rules fire again on an existing page)
+            p1 = draw(st.sampled_from(pgs_))
+            p2 = draw(st.sampled_from(pgs_))
+            how = draw(st.sampled_from(["page", "pages", "link-source", "link-target", "batch-source", "batch-target"]))
+            if how == "page":
+                return ("page", T(p1), draw(st.booleans()))
+            if how == "pages":
+                return ("pages", [T(p1)], draw(st.booleans()))
+            if how == "link-source":
+                return ("links", [(T(p1), T(p2))])
+            if how == "link-target":
+                return ("links", [(T(p2), T(p1))])
+            if how == "batch-source":
+                return ("batch", [(T(p1), [])], 1)
+            return ("batch", [(T(p2), [T(p1)])], 1)
+        # re-submission of an earlier page/link request, unchanged
         return draw(st.sampled_from(prev[-8:]))
     bases = sorted(set(led.rules) | set(p for p in led.prefix_map if p.startswith(b"s:")))
     if kind == "page":
